@@ -171,6 +171,11 @@ package config
 
 // the declared snapshot names stay first, in their order (names of the group may follow)
 //@ pred InclOK(out []string, in []string) := len(out) >= len(in) && forall(j, 0, len(in), out[j] == in[j])
+// a declared admission binding whose namespace label selector or label selector is invalid
+//@ pred AdmBad(a KubernetesAdmissionConfigV1) := (a.LabelSelector != nil && errof(kubeeventsmanager.FormatLabelSelector(a.LabelSelector)) != nil)
+//@     || (a.Namespace != nil && a.Namespace.LabelSelector != nil && errof(kubeeventsmanager.FormatLabelSelector(a.Namespace.LabelSelector)) != nil)
+// a declared kubernetes binding with an invalid apiVersion or label selector
+//@ pred K8sBad(k OnKubernetesEventConfigV1) := (k.ApiVersion != "" && errof(schema.ParseGroupVersion(k.ApiVersion)) != nil) || (k.LabelSelector != nil && errof(kubeeventsmanager.FormatLabelSelector(k.LabelSelector)) != nil)
 //@ pred K8sAll(outs []htypes.OnKubernetesEventConfig, ins []OnKubernetesEventConfigV1) := len(outs) == len(ins) && forall(i, 0, len(outs), K8sOK(outs[i], ins[i]))
 
 //@ pred SchOK(out htypes.ScheduleConfig, in ScheduleConfigV1) := out.BindingName == ite(in.Name != "", in.Name, "schedule") && out.Queue == ite(in.Queue == "", "main", in.Queue)
@@ -186,42 +191,64 @@ package config
 //@   ensures [kubernetes/count]    result == nil ==> len(c.OnKubernetesEvents) == len(cv1.OnKubernetesEvent)
 //@   ensures [kubernetes/defaults] result == nil ==> forall(i, 0, len(c.OnKubernetesEvents), K8sOK(c.OnKubernetesEvents[i], cv1.OnKubernetesEvent[i]))
 //@   ensures [kubernetes/declared-snapshots-first] result == nil ==> forall(i, 0, len(c.OnKubernetesEvents), InclOK(c.OnKubernetesEvents[i].IncludeSnapshotsFrom, cv1.OnKubernetesEvent[i].IncludeSnapshotsFrom))
+//@   ensures [kubernetes/invalid-rejected] result == nil ==> forall(i, 0, len(cv1.OnKubernetesEvent), !K8sBad(cv1.OnKubernetesEvent[i]))
+//@   ensures [validating/invalid-rejected] result == nil ==> forall(i, 0, len(cv1.KubernetesValidating), !AdmBad(cv1.KubernetesValidating[i]))
+//@   ensures [mutating/invalid-rejected]   result == nil ==> forall(i, 0, len(cv1.KubernetesMutating), !AdmBad(cv1.KubernetesMutating[i]))
 //@   ensures [schedules/count]    result == nil ==> len(c.Schedules) == len(cv1.Schedule)
 //@   ensures [schedules/defaults] result == nil ==> forall(i, 0, len(c.Schedules), SchOK(c.Schedules[i], cv1.Schedule[i]))
 //@   loop 1
 //@     invariant 0 <= iter() && iter() <= len(cv1.OnKubernetesEvent) && len(c.OnKubernetesEvents) == iter()
 //@     invariant forall(i, 0, iter(), K8sOK(c.OnKubernetesEvents[i], cv1.OnKubernetesEvent[i]))
+//@     invariant [valid] forall(i, 0, iter(), !K8sBad(cv1.OnKubernetesEvent[i]))
 //@     invariant [incl] forall(i, 0, iter(), c.OnKubernetesEvents[i].IncludeSnapshotsFrom == cv1.OnKubernetesEvent[i].IncludeSnapshotsFrom)
 //@   loop 2
 //@     invariant [k8s] K8sAll(c.OnKubernetesEvents, cv1.OnKubernetesEvent)
+//@     invariant [k8s-valid] forall(i, 0, len(cv1.OnKubernetesEvent), !K8sBad(cv1.OnKubernetesEvent[i]))
 //@     invariant [incl] forall(i, 0, len(c.OnKubernetesEvents), c.OnKubernetesEvents[i].IncludeSnapshotsFrom == cv1.OnKubernetesEvent[i].IncludeSnapshotsFrom)
 //@   loop 3
 //@     invariant [k8s] K8sAll(c.OnKubernetesEvents, cv1.OnKubernetesEvent)
+//@     invariant [k8s-valid] forall(i, 0, len(cv1.OnKubernetesEvent), !K8sBad(cv1.OnKubernetesEvent[i]))
 //@     invariant [incl] forall(i, 0, len(c.OnKubernetesEvents), c.OnKubernetesEvents[i].IncludeSnapshotsFrom == cv1.OnKubernetesEvent[i].IncludeSnapshotsFrom)
 //@     invariant 0 <= iter() && iter() <= len(cv1.Schedule) && len(c.Schedules) == iter()
 //@     invariant forall(i, 0, iter(), SchOK(c.Schedules[i], cv1.Schedule[i]))
 //@   loop 4
 //@     invariant [k8s] K8sAll(c.OnKubernetesEvents, cv1.OnKubernetesEvent)
+//@     invariant [k8s-valid] forall(i, 0, len(cv1.OnKubernetesEvent), !K8sBad(cv1.OnKubernetesEvent[i]))
+//@     invariant [val-valid] 0 <= iter() && iter() <= len(cv1.KubernetesValidating) && forall(i, 0, iter(), !AdmBad(cv1.KubernetesValidating[i]))
 //@     invariant [incl] forall(i, 0, len(c.OnKubernetesEvents), c.OnKubernetesEvents[i].IncludeSnapshotsFrom == cv1.OnKubernetesEvent[i].IncludeSnapshotsFrom)
 //@     invariant [sch] SchAll(c.Schedules, cv1.Schedule)
 //@   loop 5
 //@     invariant [k8s] K8sAll(c.OnKubernetesEvents, cv1.OnKubernetesEvent)
+//@     invariant [k8s-valid] forall(i, 0, len(cv1.OnKubernetesEvent), !K8sBad(cv1.OnKubernetesEvent[i]))
+//@     invariant [val-valid] forall(i, 0, len(cv1.KubernetesValidating), !AdmBad(cv1.KubernetesValidating[i]))
 //@     invariant [incl] forall(i, 0, len(c.OnKubernetesEvents), c.OnKubernetesEvents[i].IncludeSnapshotsFrom == cv1.OnKubernetesEvent[i].IncludeSnapshotsFrom)
 //@     invariant [sch] SchAll(c.Schedules, cv1.Schedule)
 //@   loop 6
 //@     invariant [k8s] K8sAll(c.OnKubernetesEvents, cv1.OnKubernetesEvent)
+//@     invariant [k8s-valid] forall(i, 0, len(cv1.OnKubernetesEvent), !K8sBad(cv1.OnKubernetesEvent[i]))
+//@     invariant [val-valid] forall(i, 0, len(cv1.KubernetesValidating), !AdmBad(cv1.KubernetesValidating[i]))
+//@     invariant [mut-valid] 0 <= iter() && iter() <= len(cv1.KubernetesMutating) && forall(i, 0, iter(), !AdmBad(cv1.KubernetesMutating[i]))
 //@     invariant [incl] forall(i, 0, len(c.OnKubernetesEvents), c.OnKubernetesEvents[i].IncludeSnapshotsFrom == cv1.OnKubernetesEvent[i].IncludeSnapshotsFrom)
 //@     invariant [sch] SchAll(c.Schedules, cv1.Schedule)
 //@   loop 7
 //@     invariant [k8s] K8sAll(c.OnKubernetesEvents, cv1.OnKubernetesEvent)
+//@     invariant [k8s-valid] forall(i, 0, len(cv1.OnKubernetesEvent), !K8sBad(cv1.OnKubernetesEvent[i]))
+//@     invariant [val-valid] forall(i, 0, len(cv1.KubernetesValidating), !AdmBad(cv1.KubernetesValidating[i]))
+//@     invariant [mut-valid] forall(i, 0, len(cv1.KubernetesMutating), !AdmBad(cv1.KubernetesMutating[i]))
 //@     invariant [incl] forall(i, 0, len(c.OnKubernetesEvents), c.OnKubernetesEvents[i].IncludeSnapshotsFrom == cv1.OnKubernetesEvent[i].IncludeSnapshotsFrom)
 //@     invariant [sch] SchAll(c.Schedules, cv1.Schedule)
 //@   loop 8
 //@     invariant [k8s] K8sAll(c.OnKubernetesEvents, cv1.OnKubernetesEvent)
+//@     invariant [k8s-valid] forall(i, 0, len(cv1.OnKubernetesEvent), !K8sBad(cv1.OnKubernetesEvent[i]))
+//@     invariant [val-valid] forall(i, 0, len(cv1.KubernetesValidating), !AdmBad(cv1.KubernetesValidating[i]))
+//@     invariant [mut-valid] forall(i, 0, len(cv1.KubernetesMutating), !AdmBad(cv1.KubernetesMutating[i]))
 //@     invariant [incl] forall(i, 0, len(c.OnKubernetesEvents), c.OnKubernetesEvents[i].IncludeSnapshotsFrom == cv1.OnKubernetesEvent[i].IncludeSnapshotsFrom)
 //@     invariant [sch] SchAll(c.Schedules, cv1.Schedule)
 //@   loop 9
 //@     invariant [k8s] K8sAll(c.OnKubernetesEvents, cv1.OnKubernetesEvent)
+//@     invariant [k8s-valid] forall(i, 0, len(cv1.OnKubernetesEvent), !K8sBad(cv1.OnKubernetesEvent[i]))
+//@     invariant [val-valid] forall(i, 0, len(cv1.KubernetesValidating), !AdmBad(cv1.KubernetesValidating[i]))
+//@     invariant [mut-valid] forall(i, 0, len(cv1.KubernetesMutating), !AdmBad(cv1.KubernetesMutating[i]))
 //@     invariant [sch] SchAll(c.Schedules, cv1.Schedule)
 //@     invariant 0 <= iter() && iter() <= len(c.OnKubernetesEvents) && len(newKubeEvents) == iter() && fresh(newKubeEvents) && base(newKubeEvents) != base(c.OnKubernetesEvents)
 //@     invariant forall(i, 0, iter(), K8sOK(newKubeEvents[i], cv1.OnKubernetesEvent[i]))
@@ -229,19 +256,31 @@ package config
 //@     invariant [incl-new] forall(i, 0, iter(), InclOK(newKubeEvents[i].IncludeSnapshotsFrom, cv1.OnKubernetesEvent[i].IncludeSnapshotsFrom))
 //@   loop 10
 //@     invariant [k8s] K8sAll(c.OnKubernetesEvents, cv1.OnKubernetesEvent)
+//@     invariant [k8s-valid] forall(i, 0, len(cv1.OnKubernetesEvent), !K8sBad(cv1.OnKubernetesEvent[i]))
+//@     invariant [val-valid] forall(i, 0, len(cv1.KubernetesValidating), !AdmBad(cv1.KubernetesValidating[i]))
+//@     invariant [mut-valid] forall(i, 0, len(cv1.KubernetesMutating), !AdmBad(cv1.KubernetesMutating[i]))
 //@     invariant [incl] forall(i, 0, len(c.OnKubernetesEvents), InclOK(c.OnKubernetesEvents[i].IncludeSnapshotsFrom, cv1.OnKubernetesEvent[i].IncludeSnapshotsFrom))
 //@     invariant [sch] SchAll(c.Schedules, cv1.Schedule)
 //@     invariant 0 <= iter() && iter() <= len(c.Schedules) && len(newSchedules) == iter() && fresh(newSchedules) && base(newSchedules) != base(c.Schedules)
 //@     invariant forall(i, 0, iter(), SchOK(newSchedules[i], cv1.Schedule[i]))
 //@   loop 11
 //@     invariant [k8s] K8sAll(c.OnKubernetesEvents, cv1.OnKubernetesEvent)
+//@     invariant [k8s-valid] forall(i, 0, len(cv1.OnKubernetesEvent), !K8sBad(cv1.OnKubernetesEvent[i]))
+//@     invariant [val-valid] forall(i, 0, len(cv1.KubernetesValidating), !AdmBad(cv1.KubernetesValidating[i]))
+//@     invariant [mut-valid] forall(i, 0, len(cv1.KubernetesMutating), !AdmBad(cv1.KubernetesMutating[i]))
 //@     invariant [incl] forall(i, 0, len(c.OnKubernetesEvents), InclOK(c.OnKubernetesEvents[i].IncludeSnapshotsFrom, cv1.OnKubernetesEvent[i].IncludeSnapshotsFrom))
 //@     invariant [sch] SchAll(c.Schedules, cv1.Schedule)
 //@   loop 12
 //@     invariant [k8s] K8sAll(c.OnKubernetesEvents, cv1.OnKubernetesEvent)
+//@     invariant [k8s-valid] forall(i, 0, len(cv1.OnKubernetesEvent), !K8sBad(cv1.OnKubernetesEvent[i]))
+//@     invariant [val-valid] forall(i, 0, len(cv1.KubernetesValidating), !AdmBad(cv1.KubernetesValidating[i]))
+//@     invariant [mut-valid] forall(i, 0, len(cv1.KubernetesMutating), !AdmBad(cv1.KubernetesMutating[i]))
 //@     invariant [incl] forall(i, 0, len(c.OnKubernetesEvents), InclOK(c.OnKubernetesEvents[i].IncludeSnapshotsFrom, cv1.OnKubernetesEvent[i].IncludeSnapshotsFrom))
 //@     invariant [sch] SchAll(c.Schedules, cv1.Schedule)
 //@   loop 13
 //@     invariant [k8s] K8sAll(c.OnKubernetesEvents, cv1.OnKubernetesEvent)
+//@     invariant [k8s-valid] forall(i, 0, len(cv1.OnKubernetesEvent), !K8sBad(cv1.OnKubernetesEvent[i]))
+//@     invariant [val-valid] forall(i, 0, len(cv1.KubernetesValidating), !AdmBad(cv1.KubernetesValidating[i]))
+//@     invariant [mut-valid] forall(i, 0, len(cv1.KubernetesMutating), !AdmBad(cv1.KubernetesMutating[i]))
 //@     invariant [incl] forall(i, 0, len(c.OnKubernetesEvents), InclOK(c.OnKubernetesEvents[i].IncludeSnapshotsFrom, cv1.OnKubernetesEvent[i].IncludeSnapshotsFrom))
 //@     invariant [sch] SchAll(c.Schedules, cv1.Schedule)
